@@ -293,9 +293,10 @@ func (x *lc) dangers(d decoder, ref []byte) []danger {
 				}
 				if !confirmed || dz.site == "" {
 					confirmed = true
-					// smallest power of two whose extrapolated allocation exceeds the limit
+					// smallest power of two whose extrapolated allocation exceeds twice the limit (the slope measured
+					// on the small probe includes fixed overheads)
 					v := uint64(probeLen)
-					for float64(v)*float64(out.Alloc)/probeLen <= float64(allocLimit(len(ref))) {
+					for float64(v)*float64(out.Alloc)/probeLen <= 2*float64(allocLimit(len(ref))) {
 						v <<= 1
 					}
 					o3 := runJob(hdr, x.corruptJob(d, o, enc(f, v), false))
